@@ -57,12 +57,13 @@ class Build:
         self.path = path
         self.exe = os.path.join(path, "chibi-scheme")
         self.lib = os.path.join(path, "lib")
+        self.extra_mod = []
 
     def env(self, extra=None):
         e = dict(os.environ)
         e["LD_LIBRARY_PATH"] = self.path
         e["CHIBI_IGNORE_SYSTEM_PATH"] = "1"
-        e["CHIBI_MODULE_PATH"] = "%s:%s/lib" % (self.lib, REPO)
+        e["CHIBI_MODULE_PATH"] = ":".join(self.extra_mod + [self.lib, REPO + "/lib"])
         for k in list(e):
             if k.startswith("CHIBI_VERIF"):
                 del e[k]
@@ -112,6 +113,19 @@ def compile_c(build, src, out, extra=(), shared=False):
     if r.returncode != 0:
         raise Broken("harness compile failed (%s):\n%s" % (src, r.stdout.decode(errors="replace")[-3000:]))
     return out
+
+
+def build_probe(build, sc):
+    """Build the (verif probe) foreign library in scratch space and put it on the module path."""
+    mod = sc.sub("mod")
+    d = os.path.join(mod, "verif")
+    os.makedirs(d, exist_ok=True)
+    src = os.path.join(VERIF, "harness", "probe", "verif")
+    shutil.copy(os.path.join(src, "probe.sld"), d)
+    compile_c(build, os.path.join(src, "probe.c"), os.path.join(d, "probe.so"), shared=True)
+    if mod not in build.extra_mod:
+        build.extra_mod.insert(0, mod)
+    return mod
 
 
 # --------------------------------------------------------------------------
